@@ -22,6 +22,7 @@ TYPES = {
     "u8": ({"type": "integer", "format": "uint8", "minimum": 0}, [0, 255], None, 9),
     "bool": ({"type": "boolean"}, [True, False], None, True),
     "vec": ({"type": "array", "items": INT}, [[1, 2], []], None, [3]),
+    "tuple1": ({"type": "array", "items": [INT], "minItems": 1, "maxItems": 1}, [[5], [0]], None, [7]),
     "set": ({"type": "array", "items": INT, "uniqueItems": True}, [[1, 2], []], None, [3]),
     "set_str": ({"type": "array", "items": {"type": "string"}, "uniqueItems": True}, [["a"], []], None, None),
     "array2": ({"type": "array", "items": INT, "minItems": 2, "maxItems": 2}, [[1, 2], [0, 0]], None, [3, 4]),
